@@ -49,14 +49,14 @@ TOLF = 32.0
 
 def plan(tier):
     if tier == "thorough":
-        return [{"variant": "plain", "workers": 16, "cases": 250000}]
+        return [{"variant": "plain", "workers": 16, "cases": 200000}]
     return [{"variant": "plain", "workers": 16, "cases": 12000}]
 
 
 def run(ctx):
     import re
     import numpy as np
-    from cvxopt import matrix, spmatrix, blas
+    from cvxopt import blas
     from vlib.oracle import blasspec as B
     from vlib.harness import CaseTimeout
 
@@ -72,23 +72,7 @@ def run(ctx):
     CONV = {"d": float, "z": complex, "i": int}
     DT = {"d": np.float64, "z": np.complex128, "i": np.int64}
 
-    def build(buf):
-        kind, tc = buf.get("kind", "matrix"), buf["tc"]
-        r, c_ = buf["size"]
-        if kind == "none":
-            return None
-        conv = CONV[tc]
-        lst = [conv(v) for v in buf["data"]]
-        if kind == "list":
-            return lst
-        if kind == "spmatrix":
-            tcs = "z" if tc == "z" else "d"
-            I = [t % r for t in range(r * c_)] if r else []
-            J = [t // r for t in range(r * c_)] if r else []
-            return spmatrix([CONV[tcs](v) for v in lst], I, J, (r, c_), tcs)
-        if r * c_ == 0:
-            return matrix(conv(0), (r, c_), tc)
-        return matrix(lst, (r, c_), tc)
+    build = B.to_cvxopt
 
     def image(obj, buf):
         """bit image (uint64 words, column-major = buffer order) of a dense matrix argument"""
@@ -122,13 +106,7 @@ def run(ctx):
         before = {b: words(call["bufs"][b]["data"]) for b in dense}
         for b in dense:          # conversion to cvxopt must be faithful, or nothing below means anything
             assert np.array_equal(image(objs[b], call["bufs"][b]), before[b]), "conversion of %s" % b
-        pos = [objs[n] if sp.kinds[n] == "mat" else call["args"][n] for n in sp.required]
-        kw = {}
-        for n in sp.optional:
-            if sp.kinds[n] == "mat":
-                kw[n] = objs[n]
-            elif n in call["args"]:
-                kw[n] = call["args"][n]
+        pos, kw = B.invocation(call, objs)
         f = getattr(blas, fn)
         ret, exc = None, None
         try:
@@ -263,6 +241,8 @@ def run(ctx):
         call = B.gen_call(rng, fn, stratum)
         c.desc.update(B.describe(call))
         ctx.count("stratum.%d" % stratum)
+        if call["meta"].get("bykw"):
+            ctx.count("required-args-by-keyword")
         fails, info = evaluate(call)
         c.check(info["checks"])
         res = B.resolve(call)
